@@ -1553,6 +1553,7 @@ def run_scenario(scn, seed='s'):
     try:
         all_ids = {}
         expectations = {}
+        indexed = {}         # response record id -> file, of the lives that wrote index lines and whose archive still stands
         for li, run in enumerate(scn['runs']):
             if run.get('die_after') is not None or run.get('kill'):
                 obs = run_real_life_forked(directory, run, '%s/%d' % (seed, li))
@@ -1583,6 +1584,27 @@ def run_scenario(scn, seed='s'):
                                               if run.get('die_after') is not None else
                                               'after the process died inside an append (%r), close() never ran' % (run.get('kill'),))
             out.c07 += oracle_c07(obs, by_file, obs['after'], expectations)
+            # across lives: an APPENDING life keeps the archive files of the earlier lives, so every response record an
+            # earlier life indexed must still have exactly one line in the index as it lies now
+            if obs['cfg']['appending'] and indexed:
+                now = {}
+                for ln in obs['after'].get(PREFIX + '.cdx', b'').split(b'\n'):
+                    cols = ln.split(b' ')
+                    if len(cols) == 9:
+                        now[cols[8]] = now.get(cols[8], 0) + 1
+                lost = [(rid, where) for rid, where in sorted(indexed.items()) if now.get(rid, 0) != 1]
+                if lost:
+                    out.c07.append(('cdx-line-missing-for-earlier-run', '_start_new_cdx_file',
+                                    'life %d appends (max_size=%r): %d response records of earlier lives are still in their files but '
+                                    'have no (or not exactly one) line in %s.cdx any more, e.g. %s of %s'
+                                    % (li, obs['cfg']['max_size'], len(lost), PREFIX, lost[0][0].decode('latin-1'), lost[0][1])))
+            if obs['cfg']['cdx']:
+                if not obs['cfg']['appending']:
+                    indexed = {}
+                for name, (start, recs) in by_file.items():
+                    for r in recs:
+                        if r.type == b'response':
+                            indexed[r.id] = name
             if obs.get('ended_by_fault'):
                 out.tags.append('life:ended-by-failed-rollover')
             elif obs.get('killed_in_append'):
